@@ -18,6 +18,20 @@ type plan struct {
 	L     int
 }
 
+type chunkResult struct {
+	obs [][]stepObs
+	rep chunkErrs
+}
+
+func contains(s []string, x string) bool {
+	for _, y := range s {
+		if y == x {
+			return true
+		}
+	}
+	return false
+}
+
 func pow(a, n int) int {
 	r := 1
 	for i := 0; i < n; i++ {
@@ -344,7 +358,7 @@ func Run(r *rt.Run) error {
 		seqs []Seq
 		ids  []string
 		doc  bool
-		done chan [][]stepObs
+		done chan chunkResult
 	}
 	jobs := make(chan *job, tp.workers)
 	order := make(chan *job, 2*tp.workers)
@@ -357,7 +371,8 @@ func Run(r *rt.Run) error {
 		execs[w] = x
 		go func() {
 			for j := range jobs {
-				j.done <- x.Run(j.cfg, j.seqs, j.ids)
+				obs, rep := x.Run(j.cfg, j.seqs, j.ids)
+				j.done <- chunkResult{obs, rep}
 			}
 		}()
 	}
@@ -367,7 +382,7 @@ func Run(r *rt.Run) error {
 			nid++
 			ids[i] = fmt.Sprintf("s%d", nid)
 		}
-		j := &job{cfg: cfg, seqs: seqs, ids: ids, doc: doc, done: make(chan [][]stepObs, 1)}
+		j := &job{cfg: cfg, seqs: seqs, ids: ids, doc: doc, done: make(chan chunkResult, 1)}
 		order <- j
 		jobs <- j
 	}
@@ -413,10 +428,20 @@ func Run(r *rt.Run) error {
 		close(jobs)
 		close(order)
 	}()
+	errChunks := 0
+	errClasses := []string{}
 	for j := range order {
-		obs := <-j.done
+		res := <-j.done
+		if res.rep.N > 0 {
+			errChunks++
+			for _, c := range res.rep.Classes {
+				if len(errClasses) < 6 && !contains(errClasses, c) {
+					errClasses = append(errClasses, c)
+				}
+			}
+		}
 		for i, s := range j.seqs {
-			emit(t, j.cfg, j.ids[i], s, obs[i])
+			emit(t, j.cfg, j.ids[i], s, res.obs[i], res.rep)
 			if j.doc {
 				t.Distinct("doc#" + s.key() + fmt.Sprint(i))
 			} else if len(s) >= 2 {
@@ -430,6 +455,7 @@ func Run(r *rt.Run) error {
 		x.Points += e.Points
 		x.Events += e.Events
 		x.Forwarded += e.Forwarded
+		x.NodeErrors += e.NodeErrors
 		e.Close()
 	}
 
@@ -439,6 +465,9 @@ func Run(r *rt.Run) error {
 	r.Extra["systematic_len_max"] = maxL
 	r.Extra["random_sequences"] = tp.nRandCfg * tp.nRandSeq
 	r.Extra["random_len"] = tp.randLen
+	r.Extra["node_errors_reported"] = x.NodeErrors
+	r.Extra["chunks_with_node_errors"] = errChunks
+	r.Extra["node_error_classes"] = errClasses
 	r.Extra["real_tasks_run"] = x.Tasks
 	r.Extra["points_fed"] = x.Points
 	r.Extra["alert_events_observed"] = x.Events
